@@ -21,7 +21,7 @@ BUDGET = {"quick": 600, "thorough": 3600}
 
 
 def plan(tier):
-    n = 120 if tier == "quick" else 5000
+    n = 240 if tier == "quick" else 5000
     return [{"kind": "hyp", "n": n} for _ in range(16)]
 
 
